@@ -14,16 +14,19 @@ import random
 from harness import core, histcheck, isoapi
 from harness.props import c01
 
-LEAN_MODULES = ['Pycdlib.Props.C07', 'Pycdlib.Props.C01', 'Pycdlib.Props.C07Store']
+LEAN_MODULES = ['Pycdlib.Props.C07', 'Pycdlib.Props.C01', 'Pycdlib.Props.C07Store', 'Pycdlib.Props.C04Iso']
 THEOREMS = ['Pycdlib.Spec.addLink_shares', 'Pycdlib.Spec.rmLink_keeps_blob_iff', 'Pycdlib.Spec.rmFile_exact',
             'Pycdlib.Spec.rmFile_releases', 'Pycdlib.Spec.rmLink_local', 'Pycdlib.Spec.gc_referenced',
-            'Pycdlib.Spec.store_inv_partial', 'Pycdlib.Spec.stored_iff_named_partial']
+            'Pycdlib.Spec.store_inv_partial', 'Pycdlib.Spec.stored_iff_named_partial',
+            'Pycdlib.Iso.contents_named', 'Pycdlib.Iso.unlink_releases_iff', 'Pycdlib.Iso.space_exact']
 PARTIAL = {'store_inv_partial': 'the content-store invariant (every name has its content, every stored content is named, ids unique) is '
            'proved along every accepted history WITHOUT reopen (Props/C07Store); across reopen (renumbering of zero-length contents) it is '
            'decided per history',
            'released_at_zero_partial': 'proved for the Spec blob store (a blob survives rm_hard_link iff another name or an El Torito '
-           'entry still refers to it); that pycdlib\'s inode list refines it is decided per history by the reader/Spec comparison and '
-           'the leaked-data check'}
+           'entry still refers to it) and for the bookkeeping machine Model/Iso (contents_named: every stored content has a name after '
+           'any history; space_exact: the declared size counts exactly the stored contents, so the sectors go when the last name goes — '
+           'tied per edit in C04 through isorun). El Torito references and UDF names are outside that machine: for those, that '
+           'pycdlib\'s inode list refines the Spec is decided per history by the reader/Spec comparison and the leaked-data check'}
 TRUSTED = ['reader finds all data reachable from names; unreferenced sectors in the file area are reported as leaked']
 ASSUMPTIONS = []
 RULE = 'link-heavy op mix (addlink 30%, rmlink 15%, rmfile 12%), sizes incl. 0, optional reopen every k ops; distinct = (cfg, ops)'
